@@ -179,6 +179,10 @@ class State:
                     return 'FAIL %s of %s changed: %r -> %r' % (k, h, _short(old[k]), _short(now[k]))
         return 'ok'
 
+    def o_same_if_rej(self, *hs):
+        """after a request that was rejected (KeyError/ValueError) nothing may have changed"""
+        return self.o_same(*hs) if self.last == 'rej' else 'ok'
+
     def _frame(self, h, want):
         """every simplex named in `want` keeps name, order, faces, basis, attributes and relative position"""
         c = self.C(h); old = self.snaps[h]
@@ -815,6 +819,13 @@ class State:
             prev = sn
         if f.indices() != keys0:
             return 'FAIL visiting existing indices changed indices()'
+        # stepping through complexes() leaves the current index where it was after every snapshot
+        f = copy.deepcopy(self.C(h))
+        it = iter(f.complexes())
+        for _ in keys0:
+            next(it)
+            if f.getIndex() != cur:
+                return 'FAIL complexes() moved the current index to %r while iterating (was %r)' % (f.getIndex(), cur)
         f = copy.deepcopy(self.C(h))
         snaps = list(f.complexes())
         if f.getIndex() != cur:
